@@ -38,6 +38,9 @@ ImEQuery(x, code, st) == EG[x].q[EvIdx(code, st)]
 ImEMode(x) == EG[x].obs[2]
 ImEMods(x) == EG[x].q[EvIdx("A", "Down")][4]
 
+(* a stage state that was reached but not explored standalone (exploration cap): the wiring cannot
+   be followed through it *)
+StageExplored(f, s, e) == f # 0 /\ s # 0 /\ e # 0 /\ FG[f].expanded /\ SG[s].expanded /\ EG[e].expanded
 (* every stage state the composite can be driven into must have been explored standalone *)
 StagesComplete == /\ \A x \in 1..Len(FG) : FG[x].expanded
                   /\ \A x \in 1..Len(SG) : SG[x].expanded
